@@ -168,6 +168,18 @@ func (k *Contract) mentions(p string) bool {
 			return true
 		}
 	}
+	for _, cls := range k.CallAsserts {
+		for _, cl := range cls {
+			if hasProp(cl.Props, p) {
+				return true
+			}
+		}
+	}
+	for _, ps := range k.SafetyAt {
+		if hasProp(ps, p) {
+			return true
+		}
+	}
 	return hasProp(k.SafetyTags, p) || hasProp(k.ErrorTags, p) || hasProp(k.FrameTags, p) || hasProp(k.LockTags, p) || hasProp(k.OrderTags, p)
 }
 
@@ -244,8 +256,6 @@ func cmdCheck(g *Gen, prop, tier, evid, replayDir, knownPath string, loadSecs fl
 		o.Script = c.Script([]string{not("(bvsgt (bvadd " + x + " #x0000000000000001) " + x + ")")}, []string{x})
 		obs = append(obs, o)
 	}
-	solveAll(obs, timeout, tier == "thorough")
-
 	// classify
 	knownBy := map[string]KnownFinding{}
 	for _, k := range known.Findings {
@@ -253,6 +263,24 @@ func cmdCheck(g *Gen, prop, tier, evid, replayDir, knownPath string, loadSecs fl
 			knownBy[k.Obligation] = k
 		}
 	}
+	// a recorded finding does not switch its obligation off: the obligation is proved on the complement of the
+	// recorded region; the unrestricted obligation gets a short attempt so that a repaired tree is noticed.
+	outside := map[string]*Obligation{}
+	var extra []*Obligation
+	for _, o := range obs {
+		kf, isKnown := knownBy[o.Name]
+		if !isKnown || kf.Region == "" || o.Script == "" {
+			continue
+		}
+		o2 := *o
+		o2.Script = strings.Replace(o.Script, "(check-sat)", "(assert (not "+kf.Region+"))\n(check-sat)", 1)
+		o2.Name = o.Name + "[outside known region]"
+		outside[o.Name] = &o2
+		extra = append(extra, &o2)
+		o.shortTimeout = 5
+	}
+	solveAll(append(append([]*Obligation{}, obs...), extra...), timeout, tier == "thorough")
+
 	var failed, knownHit []*Obligation
 	nOb, nDis, nCover, nCoverOK := 0, 0, 0, 0
 	bySolver := map[string]int{}
@@ -269,28 +297,23 @@ func cmdCheck(g *Gen, prop, tier, evid, replayDir, knownPath string, loadSecs fl
 			}
 			continue
 		}
-		if o.Contained {
-			continue // listed, not claimed
+		if o.Contained && prop == "C10" {
+			continue // a panic here is converted to an error by the frame's recover: listed, not claimed under C10
 		}
 		if kf, isKnown := knownBy[o.Name]; isKnown && o.Result != "unsat" && o.Result != "holds" {
-			// prove the obligation on the complement of the recorded region
-			if kf.Region != "" && o.Script != "" {
-				o2 := *o
-				o2.Script = strings.Replace(o.Script, "(check-sat)", "(assert (not "+kf.Region+"))\n(check-sat)", 1)
-				o2.Name = o.Name + "[outside known region]"
-				solveAll([]*Obligation{&o2}, timeout, false)
+			_ = kf
+			if o2 := outside[o.Name]; o2 != nil {
+				nOb++
+				byKind[o.Kind]++
 				if o2.Result == "unsat" {
 					knownHit = append(knownHit, o)
-					nOb++
 					nDis++
-					byKind[o.Kind]++
 					bySolver[o2.Solver]++
 					continue
 				}
-				o.Model = o2.Model
-				o.Result = o2.Result
+				// the obligation fails outside the recorded region as well: a different violation
+				o.Model, o.Result, o.Script = o2.Model, o2.Result, o2.Script
 				failed = append(failed, o)
-				nOb++
 				continue
 			}
 			knownHit = append(knownHit, o)
@@ -324,7 +347,8 @@ func cmdCheck(g *Gen, prop, tier, evid, replayDir, knownPath string, loadSecs fl
 		if !o.ReplayConfirmed {
 			suffix = " no-failing-input-found"
 		}
-		fmt.Printf("VIOLATION property=%s replay=%s obligation=%s result=%s%s\n", prop, path, o.Name, o.Result, suffix)
+		fmt.Printf("failed obligation: %s (%s; %s) at %s: %s %s\n", o.Name, o.Result, o.Solver, o.Pos, o.Clause, o.Static)
+		fmt.Printf("VIOLATION property=%s replay=%s%s\n", prop, path, suffix)
 	}
 	wall := time.Since(t0).Seconds() + loadSecs
 	fmt.Printf("govc: property %s tier %s: %d obligations, %d discharged, %d failed, %d known findings, %d covers (%d ok), %d functions, %.1fs\n",
